@@ -140,6 +140,22 @@ theorem select_post {a : Agent} {L : Log} (h : AInv Good Sane SaneR tag lite (vi
   intro hl
   exact h2.anyGood hl rfl
 
+/-- the controlling selector's record of the answered renomination value is not part of the view -/
+theorem view_answered (a : Agent) (w : Option Nat) : view { a with answeredNomination := w } = view a := rfl
+
+theorem select_answered_post {a : Agent} {L : Log} (h : AInv Good Sane SaneR tag lite (view a) L) (w : Option Nat) (id : Nat)
+    (hpv : ∃ q ∈ (view a).pairs, q.id = id ∧ q.succ = true) :
+    Post Good Sane SaneR tag lite R L (({ a with answeredNomination := w } : Agent).select id) := by
+  have h' : AInv Good Sane SaneR tag lite (view ({ a with answeredNomination := w } : Agent)) L := by
+    rw [view_answered]; exact h
+  refine select_post h' id ?_
+  rw [view_answered]; exact hpv
+
+/-- a pair update that keeps every pair's view, applied after a helper -/
+theorem Post.modPair_same {L : Log} {r : Agent × List Out} (h : Post Good Sane SaneR tag lite R L r) (id : Nat)
+    (f : Pair → Pair) (hf : ∀ p, pv (f p) = pv p) : Post Good Sane SaneR tag lite R L (r.1.modPair id f, r.2) :=
+  Post.congr h (view_modPair _ _ _ hf)
+
 /-! ## sending -/
 
 theorem mem_locals_cv {a : Agent} {c : Cand} (hc : c ∈ a.locals) : cv c ∈ (view a).locs :=
@@ -959,10 +975,29 @@ theorem handleSuccess_post {a : Agent} {L : Log} (h : AInv Good Sane SaneR tag l
         generalize hX : (if (a0.modPair p.id f).controlling = true then _ else _ : Agent × List Out) = X
         have hXp : Post Good Sane SaneR tag lite R L X := by
           rw [← hX]
-          repeat' split
-          all_goals first
-            | exact select_post h1 p.id hsp
-            | exact Post.ret h1
+          split
+          · split
+            · cases pd.nom with
+              | some v =>
+                simp only []
+                repeat' split
+                all_goals first
+                  | exact select_answered_post h1 _ p.id hsp
+                  | exact Post.ret h1
+              | none =>
+                simp only []
+                split
+                · exact select_post h1 p.id hsp
+                · exact Post.ret h1
+            · exact Post.ret h1
+          · split
+            · -- the decision, then the deferred mark is cleared (not part of the view)
+              refine Post.modPair_same ?_ _ _ (fun _ => rfl)
+              repeat' split
+              all_goals first
+                | exact select_post h1 p.id hsp
+                | exact Post.ret h1
+            · exact Post.ret h1
         obtain ⟨a2, o2⟩ := X
         simp only []
         refine Post.congr (r := (a2, o2)) hXp ?_
@@ -1030,9 +1065,12 @@ def cldNom (a : Agent) (id : Nat) (m : Msg) : Agent × List Out :=
           | some sp =>
             if sp.id == id then false
             else if m.nom.isSome then true
+            else if a.lastNomination.isSome then false
             else !needsPrioCheck a.cfg || a.pairPrio sp < a.pairPrio p
         if sw then a.select id else (a, [])
-      else (a.modPair id fun p => { p with nomOnSuccess := true, deferredNom := m.nom }, [])
+      else if m.nom.isSome || p.deferredNom.isNone then
+        (a.modPair id fun p => { p with nomOnSuccess := true, deferredNom := m.nom }, [])
+      else (a, [])
   else (a, [])
 
 def cldTail (a : Agent) (id now : Nat) (l r : Cand) : Agent × List Out :=
@@ -1091,11 +1129,13 @@ theorem cldNom_post {a : Agent} {L : Log} (h : AInv Good Sane SaneR tag lite (vi
           | exact Post.ret h1
       · rename_i hps
         have hps' : p.state ≠ .succeeded := by simpa using hps
-        refine Post.ret ?_
-        rw [view_modPair_nosucc a1 id _ (nosucc_of_pairById h1 hp hps')]
-        · exact h1
-        · intro q hq
-          simp [pv]
+        split
+        · refine Post.ret ?_
+          rw [view_modPair_nosucc a1 id _ (nosucc_of_pairById h1 hp hps')]
+          · exact h1
+          · intro q hq
+            simp [pv]
+        · exact Post.ret h1
   · exact Post.ret h
 
 theorem cldTail_post {a : Agent} {L : Log} (h : AInv Good Sane SaneR tag lite (view a) L) (id now : Nat) (l r : Cand)
